@@ -13,7 +13,7 @@ Property text → theorems
 * "erases its history in those flows so it can run again later"
     `history_erased` (both tables, after the commit), `history_forgotten`, `runs_again` (`spawn_task` hands out a new
     instance), `erase_then_respawn`;  WHEN the commit happens is the defect found (finding `erase-deferred`):
-    `erased_at_once_partial` / `_counterexample` / `_live`, and end to end `respawn_partial` / `_counterexample` /
+    `erased_at_once_partial` / `_counterexample` / `_live`, `repaired_is_quiet`, and end to end `respawn_partial` / `_counterexample` /
     `_live` (a task removed and needed again within the same main loop is not spawned by the code as found)
 * "unsets only prerequisites of its children that it satisfied naturally"
     `unset_exactly_natural`, `forced_kept`, `other_tasks_kept`, `natural_unset`, `changed_iff`, `child_prereqs_unset`
@@ -301,6 +301,15 @@ theorem erased_at_once_partial (g : Graph) (hg : g.rmCommits = true) (s : State)
   unfold eraseHistory
   simp only [hg, if_true]
   exact (erase_states s k.2 k.1 F hq).1
+
+/-- the repaired code meets the hypothesis `Quiet` of the statements above by construction: a commit leaves nothing
+queued, and it commits before the first matched id is handled and after every one -/
+theorem repaired_is_quiet (g : Graph) (hg : g.rmCommits = true) (s : State) (k : Key) (F : List Nat) :
+    Quiet (dbFlush s) ∧ Quiet (eraseHistory g s k F).1 := by
+  refine ⟨⟨rfl, rfl, rfl, rfl⟩, ?_⟩
+  unfold eraseHistory
+  simp only [hg, if_true]
+  exact ⟨rfl, rfl, rfl, rfl⟩
 
 /-- the witness: one row of `1/b` in flow 1, nothing queued -/
 def cexState : State := { stRows := [⟨"b", 1, [1], 0, false, .waiting, false⟩] }
